@@ -16,13 +16,16 @@ from vlib.stubexec import run_source
 ID = "C18"
 LEVEL = "exploration"
 RULE = (
-    "stacks of 1..5 generated pickles (plain values, helper-class instances, effectful objects; "
+    "stacks of 1..5 generated pickles (plain values, helper-class instances, effectful objects, "
+    "hand-assembled programs with sparse / repeated memo indices; "
     "protocols 0-5) x --inject-target 0..k (k = one past the end) x --run-last x "
     "--replace-result x input from a path argument or standard input, through cli.main() "
     "in-process with binary-backed sys.stdin/sys.stdout, plus a sample through a real "
     "`python -m fickling` subprocess. Oracle: target < k => exit 0 and stdout re-parses as exactly "
     "k pickles, all but the target byte-identical to the inputs, the target equal to the "
-    "library-level insert_python_eval on the target's bytes with the same flags; target == k => "
+    "library-level insert_python_eval on the target's bytes with the same flags, and (independently "
+    "of that helper) still loading with the stock unpickler to the input target's value, or to 2 "
+    "with --replace-result; target == k => "
     "non-zero exit and empty stdout. Decompile: stdout compiles as one module that assigns "
     "result0..result{k-1} exactly once each, in order; no _var name assigned for one pickle is "
     "assigned or read for another; executed over inert stubs each result_i canonicalises equal to "
@@ -146,7 +149,34 @@ def check_inject(parts, target, run_last, replace, via_stdin, scratch, subproces
             return fail(f"pickle {i} (not the target) was altered")
     if got[target] != want:
         return fail("the target pickle differs from the library-level injection with the same flags")
+    # ... and "the injection applied" means what it says, independently of the library helper: the
+    # emitted target still loads, to the original object (or to the injected call's value)
+    try:
+        orig = pickle.loads(parts[target])
+    except Exception:  # noqa: BLE001 - the input itself does not load: nothing to compare
+        return None
+    try:
+        new = pickle.loads(got[target])
+    except Exception as e:  # noqa: BLE001
+        return fail(f"the emitted target pickle no longer loads: {type(e).__name__}: {e}")
+    if replace:
+        if new != 2:
+            return fail(f"--replace-result: the emitted target loads to {new!r}, not to the injected call's value 2")
+    elif not _same(orig, new):
+        return fail(f"the emitted target loads to {new!r} but the input's target loads to {orig!r}")
     return None
+
+
+def _same(a, b):
+    try:
+        if values.deep_equal(a, b):
+            return True
+    except Exception:  # noqa: BLE001
+        pass
+    try:
+        return bool(a == b) or repr(a) == repr(b)
+    except Exception:  # noqa: BLE001
+        return repr(a) == repr(b)
 
 
 def check_decompile(parts, via_stdin, trace, scratch):
@@ -234,7 +264,10 @@ def _parts():
     v = st.one_of(values.plain_values(max_leaves=5), values.instance_values(), eff)
     small = st.tuples(v, st.sampled_from(range(6))).map(lambda t: _dumps(*t))
     big = st.tuples(values.multi_frame_values(), st.sampled_from([4, 5])).map(lambda t: _dumps(*t))
-    return st.one_of(*([small] * 9), big)
+    # hand-assembled targets whose memo is written sparsely or twice at the same index
+    odd_memo = st.sampled_from([b"]q\x00Nq\x000.", b"(lp1\nI1\nap1\n.", b"\x80\x02]q\x00(K\x01K\x02eq\x00.",
+                                b"\x80\x02}q\x05(K\x01]q\x05K\x02h\x05u.", b"\x80\x04\x8c\x01a\x94\x8c\x01b\x94q\x000h\x01\x86."])  # fmt: skip
+    return st.one_of(*([small] * 8), big, odd_memo)
 
 
 def _dumps(v, proto):
